@@ -37,6 +37,12 @@ def eval_sym(s, env, defs):
             return eval_poly(d[1], env, defs) // eval_poly(d[2], env, defs)
         if d[0] == "mod":
             return eval_poly(d[1], env, defs) % eval_poly(d[2], env, defs)
+        if d[0] == "round":
+            return round(eval_poly(d[1], env, defs))
+        if d[0] == "min":
+            return min(eval_poly(d[1], env, defs), eval_poly(d[2], env, defs))
+        if d[0] == "max":
+            return max(eval_poly(d[1], env, defs), eval_poly(d[2], env, defs))
     raise KeyError(s)
 
 
